@@ -106,8 +106,37 @@ def dynamic_verdict(case):
     return changed, aliased
 
 
+# the translator's own fail-closed check of its output: IR fragments and the variable that must be found possibly unbound
+IR_CASES = {
+    "ir.read_of_never_bound": (["seq", [["bind", 0, ["param", 0]], ["write", 5]]], 5),
+    "ir.alias_of_never_bound": (["seq", [["bind", 1, ["alias", [7]]]]], 7),
+    "ir.store_of_unbound": (["seq", [["bind", 0, ["fresh", 0]], ["store", 0, 0, 3]]], 3),
+    "ir.bound_on_one_branch_only": (["seq", [["branch", ["bind", 1, ["fresh", 0]], ["skip"]], ["ret", 1]]], 1),
+    # the comprehension-order bug of the audit: the inner iterable is read before the outer target is bound
+    "ir.read_before_bind_in_loop": (["loop", ["seq", [["bind", 1, ["load", [2], 0, 0]], ["bind", 2, ["fresh", 1]]]]], 2),
+    "ir.bound_before_raise_only": (["seq", [["branch", ["seq", [["bind", 1, ["fresh", 0]], ["stop", "raise"]]], ["skip"]],
+                                           ["write", 1]]], 1),
+    # accepted: bound on every path that continues
+    "ir.ok_else_raises": (["seq", [["branch", ["bind", 1, ["fresh", 0]], ["seq", [["stop", "raise"]]]], ["write", 1]]], None),
+    "ir.ok_loop_then_use": (["seq", [["loop", ["bind", 1, ["fresh", 0]]], ["write", 1]]], None),
+    "ir.ok_callee_return": (["seq", [["scope", [["bind", 1, ["fresh", 0]], ["stop", "ret"]]], ["write", 1]]], None),
+}
+
+
+def check_ir(cid):
+    ir, want = IR_CASES[cid]
+    _, bad = T.definitely_bound(ir, frozenset())
+    return [] if bad == want else [f"UNSOUND {cid}: definite-assignment check reports {bad}, expected {want}"]
+
+
+def all_ids():
+    return sorted(load()) + sorted(IR_CASES)
+
+
 def check(cid, driver):
     """list of failure texts for one case ([] = as expected)"""
+    if cid in IR_CASES:
+        return check_ir(cid)
     case = load()[cid]
     w, r = static_verdict(case, driver)
     fails = []
@@ -142,13 +171,13 @@ def main():
     d = core.Driver()
     bad = 0
     try:
-        for cid in sorted(load()):
+        for cid in all_ids():
             for f in check(cid, d):
                 bad += 1
                 print(f)
     finally:
         d.close()
-    n = len(load())
+    n = len(all_ids())
     print(f"{n} translator regression cases, {bad} failures")
     return 1 if bad else 0
 
